@@ -234,6 +234,7 @@ def run(ctx):
         o = obs[d["t"] - 1]
         evs = [e for e in o["events"] if e["ev"] != "start"]
         e = evs[d["matched"]] if d["matched"] < len(evs) else {}
+        ctx.sample(tc.slim(o, keep_events=True), limit=8)
         ctx.note("DRIFT %s: tracer event %d/%d not an action of Tracer.tla: %s" % (
             o["raw"], d["matched"] + 1, d["total"], json.dumps({k: v for k, v in e.items() if v not in (0, "", False)})))
     ctx.cov["drift"] = len(drift)
